@@ -114,15 +114,19 @@ class Runner:
         col = m[-1] if m else "?"
         empty = False
         try:
-            if fam.kind == F.BUNDLE and view.startswith("item:"):
+            if fam.kind == F.BUNDLE:
                 import pandas as pd
-                b = loader.item_id_to_bundle_id.get(fam.mkid(int(view.split(":")[1])))
-                if b is not None and b >= 0:
-                    node = loader.bundle_cache.cache.get(b)
-                    if node is not None:
-                        empty = len(node._data) == 0
-                    elif os.path.exists(loader.get_bundle_path(b)):
-                        empty = len(pd.read_feather(loader.get_bundle_path(b))) == 0
+                if view is not None and view.startswith("item:"):
+                    bundles = [loader.item_id_to_bundle_id.get(fam.mkid(int(view.split(":")[1])))]
+                else:
+                    bundles = sorted(set(loader.item_id_to_bundle_id.values()))
+                for b in bundles:
+                    if b is not None and b >= 0:
+                        node = loader.bundle_cache.cache.get(b)
+                        if node is not None:
+                            empty = empty or len(node._data) == 0
+                        elif os.path.exists(loader.get_bundle_path(b)):
+                            empty = empty or len(pd.read_feather(loader.get_bundle_path(b))) == 0
         except Exception:
             pass
         return "[empty-bundle]" if empty else "[no-column:%s]" % col
@@ -176,7 +180,7 @@ class Runner:
                 continue
             okinds = {"field:" + N.field_of(p, h) for p, h in N.diff_paths(old, got, limit=40)}
             if all(known((ID, fam.cls, fphase, k)) for k in okinds):
-                self.disc(fphase, stale_kind, "%s returns the content of an earlier save, not the latest one (differs at %s)" % (view, diffs[:2]))
+                self.disc(fphase if stale_kind == "stale" else phase, stale_kind, "%s returns the content of an earlier save, not the latest one (differs at %s)" % (view, diffs[:2]))
                 return
         if got == default and exp != default:
             self.disc(phase, lost_kind, "%s returns nothing, the model holds %s" % (view, _short(exp)))
@@ -208,7 +212,8 @@ class Runner:
                 except BaseException as e:
                     if isinstance(e, KeyboardInterrupt):
                         raise
-                    self.disc(_phase_of(op[0]), _exc_sig(e), "%s raised %r" % (op[0], e))
+                    detail = self._quit_detail(self.loader, None) if isinstance(e, SystemExit) else ""
+                    self.disc(_phase_of(op[0]), _exc_sig(e, detail), "%s raised %r" % (op[0], e))
                     break
             self.bundles = max(self.bundles, getattr(self.loader, "bundle_count", 0))
             if self.bundles >= 2:
